@@ -52,6 +52,17 @@ def cases(rng, tier):
     idx = 0
     for i in range(ntab):
         t = G.rand_table(rng, ncols=rng.choice([1, 2, 3, 4]), nslices=rng.choice([1, 2, 3]), maxrows={"quick": 12, "thorough": 60, "search": 8}[tier])
+        if i % 4 == 0 and t["cols"]:
+            # the slice ends inside a bulk read: the last column carries a property whose array is a plain / run-length
+            # array of fixed-size elements (a short fread there has nothing after it that would fail)
+            from vlib import rand_array, INT
+            PLAIN, RLE = G.PLAIN, G.RLE
+            for sl in t["slices"]:
+                rows = max(len(sl[-1]["vals"]), 0)
+                if rows < 3:
+                    continue
+                pty = rng.choice([INT, 4, 5, 2])
+                sl[-1]["props"] = [p for p in sl[-1]["props"] if p[0] != b"ErrorCode"] + [(b"ErrorCode", pty, rand_array(rng, pty, rows, "random"), rng.choice([PLAIN, RLE]))]
         layouts = None
         if i % 2:
             layouts = {}
